@@ -820,6 +820,45 @@ def judge_unpack(fi: FunctionInfo, at: ast.stmt, target: ast.expr, rhs: ast.expr
     return ("ok", f"the length is {want} for every admissible split length (maxsplit / separator test / len() guard / slice+padding)")
 
 
+_FIELD_ENUMS = ("get_fields", "as_triple", "fields", "asdict")
+
+
+def _getattr_field_guard(call: ast.Call, fi: FunctionInfo) -> bool:
+    """``getattr(obj, NAME)`` where ``NAME in F`` holds and F is a comprehension / dict() over a dataclass field
+    enumeration (``x.get_fields()``, ``x.as_triple()``, ``dc.fields(x)``, ``dc.asdict(x)``): NAME is a field name."""
+    nm = call.args[1]
+    if not isinstance(nm, ast.Name) or fi.is_lambda:
+        return False
+    try:
+        from .flow import get_cfg
+
+        cfg = get_cfg(fi)
+        facts = cfg.guards(cfg.stmt_of(call))
+    except Exception:
+        return False
+    for t, pol in facts:
+        if not (isinstance(t, ast.Compare) and len(t.ops) == 1 and isinstance(t.left, ast.Name) and t.left.id == nm.id and isinstance(t.comparators[0], ast.Name)):
+            continue
+        if not ((isinstance(t.ops[0], ast.In) and pol) or (isinstance(t.ops[0], ast.NotIn) and not pol)):
+            continue
+        coll = t.comparators[0].id
+        defs = [n.value for n in fi.local_nodes() if isinstance(n, ast.Assign) and len(n.targets) == 1 and isinstance(n.targets[0], ast.Name) and n.targets[0].id == coll]
+        stores = [n for n in fi.local_nodes() if isinstance(n, ast.Name) and n.id == coll and isinstance(n.ctx, ast.Store)]
+        if len(defs) != 1 or len(stores) != 1:
+            continue
+        d = defs[0]
+        its = []
+        if isinstance(d, (ast.DictComp, ast.SetComp, ast.ListComp)) and len(d.generators) == 1:
+            its = [d.generators[0].iter]
+        elif isinstance(d, ast.Call) and dotted(d.func) in ("dict", "set", "list", "tuple") and len(d.args) == 1:
+            its = [d.args[0]]
+        for it in its:
+            for c in ast.walk(it):
+                if isinstance(c, ast.Call) and (dotted(c.func) or "").split(".")[-1] in _FIELD_ENUMS:
+                    return True
+    return False
+
+
 def _iterated_elements(it: ast.expr) -> list[tuple[ast.expr, list]]:
     """Element expressions of an iterable written in place (with the comprehension filters that hold for them)."""
     if isinstance(it, (ast.ListComp, ast.GeneratorExp)) and len(it.generators) == 1:
@@ -983,6 +1022,14 @@ class EscapeAnalysis:
         for n in names:
             if n in ("yaml.safe_load", "yaml.load", "yaml.safe_load_all", "yaml.full_load", "yaml.unsafe_load"):
                 add(YAML_ERRORS, "yaml load")
+                extra = self.yaml_scalar_constructor_errors()
+                if extra:
+                    add(extra, "yaml load (SafeConstructor scalar constructors: int()/datetime of a matched scalar raise a plain ValueError, not a YAMLError)")
+            elif n in ("urllib.parse.urlparse", "urllib.parse.urlsplit"):
+                if call.args and isinstance(call.args[0], ast.Constant):
+                    pass
+                else:
+                    add([B + "ValueError"], "urlparse/urlsplit of document text ('Invalid IPv6 URL' for an unbalanced '[' in the netloc, NFKC netloc check)")
             elif n == "json.dumps":
                 if call.args and _str_or_none_typed(call.args[0], fi):
                     self._discharge(fi, call, "json.dumps(): the argument is a parameter annotated str / str | None that is only rebound to itself-or-a-string-literal (json serialises every str and None)")
@@ -1027,7 +1074,10 @@ class EscapeAnalysis:
             elif n == "importlib.import_module":
                 add([B + "ImportError", B + "ValueError"], "import_module of a configured dotted path")
             elif n == B + "getattr" and len(call.args) == 2:
-                add([B + "AttributeError"], "2-argument getattr")
+                if _getattr_field_guard(call, fi):
+                    self._discharge(fi, call, "2-argument getattr: the attribute name is dominated by a membership test in a collection built from the dataclass' own field enumeration")
+                else:
+                    add([B + "AttributeError"], "2-argument getattr")
             elif n == B + "next" and len(call.args) == 1:
                 add([B + "StopIteration"], "next() without default")
             elif n == "jinja2.Environment" :
@@ -1058,6 +1108,32 @@ class EscapeAnalysis:
                     # docutils option converters raise ValueError for a bad *string* (TypeError only for None)
                     add([B + "ValueError"], "docutils option converter applied to str(value)")
         return out
+
+    def yaml_scalar_constructor_errors(self) -> list[str]:
+        """What the scalar constructors of PyYAML's SafeConstructor raise besides YAMLError, read from the sibling
+        source: a ``construct_yaml_*`` method that calls ``int``/``float``/``datetime.date``/``datetime.datetime``/
+        ``datetime.timezone`` outside any ``try`` lets the ValueError of an out-of-range but regex-matching scalar
+        (``2001-13-45``, ``0x_``, ``+99:00``) propagate out of ``yaml.safe_load``."""
+
+        def compute():
+            try:
+                m = self.c.sibling("yaml/constructor.py")
+            except Exception:
+                return [B + "ValueError"]  # source not readable: assume the documented behaviour of PyYAML 5/6
+            ci = m.classes.get("SafeConstructor")
+            if ci is None:
+                return [B + "ValueError"]
+            fallible = ("int", "float", "datetime.date", "datetime.datetime", "datetime.timezone")
+            for name, f in ci.methods.items():
+                if not name.startswith("construct_yaml_"):
+                    continue
+                for c in f.local_nodes():
+                    if isinstance(c, ast.Call) and dotted(c.func) in fallible and c.args and not isinstance(c.args[0], ast.Constant):
+                        if not any(isinstance(a, ast.Try) and any(c in ast.walk(b) for b in a.body) for a in ancestors(c)):
+                            return [B + "ValueError"]
+            return []
+
+        return self.c.cache("yaml-scalar-constructor-errors", compute)
 
     def converter_tables_not_docutils(self) -> list[str]:
         """Every ``converters=`` argument in the package is a dict literal whose values are
